@@ -4,8 +4,8 @@ from harness.props import sqlcommon as SC
 
 PID = 'C04'
 THEOREMS = ['PyDBML.C04.inline_site', 'PyDBML.C04.inline_count', 'PyDBML.C04.never_both', 'PyDBML.C04.direction_left', 'PyDBML.C04.direction_right', 'PyDBML.C04.source_is_keyHolder', 'PyDBML.C04.constraint_iff_name', 'PyDBML.C04.actions_iff_set', 'PyDBML.C04.m2m_never_inline',
-            'PyDBML.C04.read_render_fk']
-MODULES = ['PyDBMLProofs.Props.C04', 'PyDBMLProofs.Props.C04Read']
+            'PyDBML.C04.read_render_fk', 'PyDBML.C04.read_render_inline_fk']
+MODULES = ['PyDBMLProofs.Props.C04', 'PyDBMLProofs.Props.C04Read', 'PyDBMLProofs.Props.C04Inline']
 
 
 # ---- the proved reader of FOREIGN KEY statements (PyDBMLModel/SqlRead.lean, C04Read.lean) run on reference.sql of the real code ----
@@ -109,9 +109,79 @@ def part_fk_reader(ctx, drv):
             ctx.fail('db.sql raises', case, detail=r['db'][1])
 
 
+def inline_job(spec):
+    """the same references written inline: reference.sql is the FOREIGN KEY clause, and the CREATE TABLE of the key holder holds it"""
+    from pydbml import Database
+    from pydbml.classes import Table, Column, Reference
+    db = Database()
+    tabs = []
+    for t in spec['tables']:
+        tb = Table(t['name'], schema=t['schema'])
+        for c in t['columns']:
+            tb.add_column(Column(c['name'], c['type'], pk=c['pk']))
+        db.add(tb)
+        tabs.append(tb)
+    out = []
+    for r in spec['refs']:
+        ref = Reference(r['type'], [tabs[r['t1']].columns[i] for i in r['col1']], [tabs[r['t2']].columns[i] for i in r['col2']],
+                        name=r['name'], on_update=r['on_update'], on_delete=r['on_delete'], inline=True)
+        try:
+            db.add(ref)
+        except Exception as e:      # noqa
+            out.append(['dup', type(e).__name__])
+            continue
+        try:
+            out.append(['ok', ref.sql])
+        except Exception as e:      # noqa
+            out.append(['exc', type(e).__name__])
+    try:
+        whole = ['ok', db.sql]
+    except Exception as e:          # noqa
+        whole = ['exc', type(e).__name__]
+    return {'refs': out, 'db': whole}
+
+
+def part_inline_reader(ctx, drv):
+    n = 200 if ctx.tier == 'quick' else 2000
+    specs = [gen_fk_spec(ctx.rng) for _ in range(n)]
+    res = core.pmap(inline_job, specs)
+    flat = [(si, ri) for si, r in enumerate(res) for ri, x in enumerate(r['refs']) if x[0] == 'ok']
+    read = drv.ask_many({'op': 'readfkclause', 'text': res[si]['refs'][ri][1]} for si, ri in flat)
+    got = {k: m.get('ok') for k, m in zip(flat, read)}
+    for si, (spec, r) in enumerate(zip(specs, res)):
+        ctx.case(core.h(['inline', spec]), True)
+        exp = fk_expect(spec)
+        case = {'op': 'readfkclause', 'spec': spec}
+        for ri, x in enumerate(r['refs']):
+            ctx.count('inline-reader:' + x[0])
+            if x[0] == 'exc':
+                ctx.fail('reference.sql of an inline reference raises', case, detail=x[1])
+            elif x[0] == 'ok':
+                e = {k: v for k, v in exp[ri].items() if k != 'src'}
+                if got[(si, ri)] != e:
+                    ctx.fail('the proved FOREIGN KEY clause reader does not read from reference.sql of an inline reference what the '
+                             'reference says (C04Inline.read_render_inline_fk)', case,
+                             detail={'expected': e, 'read': got[(si, ri)], 'ref': ri}, sql=x[1])
+                    continue
+                # the clause stands in the CREATE TABLE of the key holder, once, and in no other statement
+                if r['db'][0] == 'ok':
+                    blocks = r['db'][1].split('\n\n')
+                    holder = [b for b in blocks if b.startswith('CREATE TABLE ' + exp[ri]['src'] + ' (')]
+                    lines = lambda b: [l.strip().rstrip(',') for l in b.split('\n')]      # noqa: E731
+                    n_in = sum(lines(b).count(x[1]) for b in holder)
+                    n_all = sum(lines(b).count(x[1]) for b in blocks)
+                    same = sum(1 for rj, y in enumerate(r['refs']) if y[0] == 'ok' and y[1] == x[1] and exp[rj]['src'] == exp[ri]['src'])
+                    if len(holder) != 1 or n_in != same or n_all != sum(1 for y in r['refs'] if y[0] == 'ok' and y[1] == x[1]):
+                        ctx.fail('the FOREIGN KEY clause of an inline reference does not stand exactly once in the CREATE TABLE of its key '
+                                 'holder', case, detail={'clause': x[1], 'holder': exp[ri]['src'], 'in holder': n_in, 'anywhere': n_all},
+                                 sql=r['db'][1])
+        if r['db'][0] != 'ok':
+            ctx.fail('db.sql raises', case, detail=r['db'][1])
+
+
 def main(tier, seed):
     ctx = core.Ctx(PID, tier, seed, 'translation_validation', THEOREMS, MODULES)
-    problems = SC.run_sql_check(ctx, PID, extra_parts=part_fk_reader)
+    problems = SC.run_sql_check(ctx, PID, extra_parts=lambda c, d: (part_fk_reader(c, d), part_inline_reader(c, d) if d is not None else None))
     return ctx.finish(
         rule='random databases with 0-5 references: 4 kinds x inline/standalone x single/composite x self/cross-table/'
              'cross-schema x named/unnamed x 7x7 action pairs; every third spec wild. Non-trivial: >=1 reference; '
